@@ -1,0 +1,57 @@
+//go:build verif
+
+package local
+
+import (
+	"sync/atomic"
+
+	"github.com/mutagen-io/mutagen/pkg/synchronization/core"
+)
+
+// This file is only compiled with the "verif" build tag. It provides the gate
+// hook used by the external verification harness: verifGate is invoked by the
+// poll-based watching loop and by Transition at the points listed below and,
+// if a callback is installed, hands it the endpoint's root and the name of the
+// point. The callback may block, which lets the harness hold the calling
+// Goroutine at that point while it drives the other side (a scheduler
+// control), and it is how the harness counts polling iterations.
+
+const (
+	// VerifGatePollBeforeLock is reached by the polling loop immediately before
+	// it acquires the scan lock for a polling scan.
+	VerifGatePollBeforeLock = "poll-before-lock"
+	// VerifGatePollAfterScan is reached by the polling loop after a successful
+	// polling scan while it still holds the scan lock. It is the only point at
+	// which the callback also receives the endpoint's current snapshot.
+	VerifGatePollAfterScan = "poll-after-scan"
+	// VerifGateTransitionAfterUnlock is reached by Transition after it has
+	// released the scan lock and before it starts working on the disk.
+	VerifGateTransitionAfterUnlock = "transition-after-unlock"
+	// VerifGateTransitionBeforeRelock is reached by Transition after its work
+	// on the disk and before it re-acquires the scan lock.
+	VerifGateTransitionBeforeRelock = "transition-before-relock"
+)
+
+// verifGateCallback holds the installed callback (nil if none).
+var verifGateCallback atomic.Pointer[func(root, point string, snapshot *core.Snapshot)]
+
+// VerifSetGate installs f as the gate callback. Passing nil removes the
+// callback. The snapshot argument is nil except at VerifGatePollAfterScan.
+func VerifSetGate(f func(root, point string, snapshot *core.Snapshot)) {
+	if f == nil {
+		verifGateCallback.Store(nil)
+	} else {
+		verifGateCallback.Store(&f)
+	}
+}
+
+// verifGate reports that the calling Goroutine has reached the named point.
+func (e *endpoint) verifGate(point string) {
+	if f := verifGateCallback.Load(); f != nil {
+		var snapshot *core.Snapshot
+		if point == VerifGatePollAfterScan {
+			snapshot = e.snapshot
+		}
+		(*f)(e.root, point, snapshot)
+	}
+}
